@@ -131,7 +131,7 @@ type docxWriter struct{}
 func (docxWriter) Ext() string { return ".docx" }
 func (docxWriter) Write(d *logical.Doc, r *rand.Rand, neutral map[string]bool) []byte {
 	return ooxml.WriteDocx(d, ooxml.DocxOptions{Neutral: neutral, Pretty: r.Intn(2) == 0, Store: r.Intn(4) == 0,
-		BodyStyle: []string{"", "Normal", "BodyText"}[r.Intn(3)]})
+		BodyStyle: []string{"", "Normal", "BodyText"}[r.Intn(3)], OutlineKeepsBodyStyle: r.Intn(2) == 0})
 }
 
 type odtWriter struct{}
